@@ -40,8 +40,9 @@ def run(ctx):
         specs = [('simple', [Fraction(r - i) for i in range(r)])]
         if r >= 3: specs.append(('low-rank', [Fraction(5), Fraction(3)] + [Fraction(0)] * (r - 2)))
         if r >= 2: specs.append(('decaying', [Fraction(1, 4 ** i) for i in range(r)]))
+        specs.append(('simple-scaled-2^-40', [Fraction(r - i) * Fraction(1, 2 ** 40) for i in range(r)])); specs.append(('simple-scaled-2^27', [Fraction(r - i) * 2 ** 27 for i in range(r)]))
         for cls, sv in specs:
-            A, _, _ = spectral_problem(rng, m, n, sv); An = qx.to_np(A); rankA = sum(1 for s in sv if s != 0); nA = fro(An)
+            A, _, _ = spectral_problem(rng, m, n, sv); An = qx.to_np(A); rankA = sum(1 for s in sv if s != 0); nA = fro(An); sc = nA if nA > 0 else 1.0       # every slack is relative to ||A||_F
             for R in sorted({1, min(2, r), r}):
                 confs = [('rand', dict(oversample=P, n_iter=q)) for P in ((0, 2, 10) if ctx.quick() else (0, 1, 2, 5, 10)) for q in ((0, 1) if ctx.quick() else (0, 1, 2, 3))]
                 confs += [('pass', dict(oversample=P, n_passes=v)) for P in ((0, 3) if ctx.quick() else (0, 1, 3, 10)) for v in ((2, 3) if ctx.quick() else (2, 3, 4, 5))]
@@ -60,15 +61,15 @@ def run(ctx):
                         if not (np.all(np.isfinite(quaternion.as_float_array(U))) and np.all(np.isfinite(s))): viol(f'C12:{kind}:nonfinite', 'NaN/inf in the output', inp); continue
                         eu = fro(utils.quat_matmat(utils.quat_hermitian(U), U) - utils.quat_eye(R)); ev = fro(utils.quat_matmat(utils.quat_hermitian(V), V) - utils.quat_eye(R))
                         if eu > 1e-8 or ev > 1e-8: viol(f'C12:{kind}:orthonormal{tag}', f'U or V does not have orthonormal columns ({eu:.1e}, {ev:.1e})', inp, (eu, ev))
-                        if np.any(s < -1e-12) or np.any(np.diff(s) > 1e-9 * max(1.0, float(sv[0]))): viol(f'C12:{kind}:order{tag}', 'values not non-negative non-increasing', inp, s.tolist())
-                        if any(float(s[i]) > float(sv[i]) * (1 + 1e-8) + 1e-10 for i in range(R)): viol(f'C12:{kind}:interlacing{tag}', 'a value exceeds the corresponding true singular value', inp, s.tolist(), [float(x) for x in sv[:R]])
+                        if np.any(s < -1e-12 * sc) or np.any(np.diff(s) > 1e-9 * sc): viol(f'C12:{kind}:order{tag}', 'values not non-negative non-increasing', inp, s.tolist())
+                        if any(float(s[i]) > float(sv[i]) * (1 + 1e-8) + 1e-10 * sc for i in range(R)): viol(f'C12:{kind}:interlacing{tag}', 'a value exceeds the corresponding true singular value', inp, s.tolist(), [float(x) for x in sv[:R]])
                         S = np.zeros((R, R), dtype=np.quaternion)
                         for i in range(R): S[i, i] = quaternion.quaternion(float(s[i]), 0, 0, 0)
                         err = fro(An - utils.quat_matmat(utils.quat_matmat(U, S), utils.quat_hermitian(V)))
                         opt = math.sqrt(float(sum(x * x for x in sv[R:])))
-                        if err < opt * (1 - 1e-8) - 1e-10: viol(f'C12:{kind}:below-optimum{tag}', 'error below the Eckart-Young optimum (impossible for orthonormal factors)', inp, err, opt)
-                        if err > nA * (1 + 1e-8) + 1e-10: viol(f'C12:{kind}:error-bound{tag}', f'||A - U diag(s) V^H||_F = {err:.3e} exceeds ||A||_F = {nA:.3e}', inp, err, nA)
-                        if rankA <= R and err > 1e-8 * max(1.0, nA): viol(f'C12:{kind}:low-rank-exact{tag}', f'rank(A) = {rankA} <= R = {R} but the decomposition is not exact (error {err:.2e})', inp, err)
+                        if err < opt * (1 - 1e-8) - 1e-10 * sc: viol(f'C12:{kind}:below-optimum{tag}', 'error below the Eckart-Young optimum (impossible for orthonormal factors)', inp, err, opt)
+                        if err > nA * (1 + 1e-8) + 1e-10 * sc: viol(f'C12:{kind}:error-bound{tag}', f'||A - U diag(s) V^H||_F = {err:.3e} exceeds ||A||_F = {nA:.3e}', inp, err, nA)
+                        if rankA <= R and err > 1e-8 * sc: viol(f'C12:{kind}:low-rank-exact{tag}', f'rank(A) = {rankA} <= R = {R} but the decomposition is not exact (error {err:.2e})', inp, err)
                         ctx.count((kind, m, n, cls, R, seed, tuple(sorted(kw.items()))), True, sample=inp if nrun == 7 else None)
     res = cm.run_cases(ctx, 'cases_vals', HEADER, vterms, 'check_vals', shard=150)
     if res is not None:
@@ -76,7 +77,7 @@ def run(ctx):
         bad = [i for i, x in enumerate(res) if not x]
         if bad: ctx.broken.append(f'value-pick model (every 4th recorded real singular value) and implementation disagree on {len(bad)} of {len(res)} run(s), first: {vterms[bad[0]][:300]}')
     ctx.cov['runs'] = nrun
-    ctx.cov['rule'] = ('shapes ' + str(shapes) + ' (sketches wider than the matrix included), spectra simple / low rank / decaying (exact rational constructions), R in {1, 2, min(m,n)}, oversample 0..10, power iterations 0..' + ('1' if ctx.quick() else '3') +
+    ctx.cov['rule'] = ('shapes ' + str(shapes) + ' (sketches wider than the matrix included), spectra simple / low rank / decaying and simple scaled by 2^-40 and 2^27 (exact rational constructions; every slack relative to ||A||_F), R in {1, 2, min(m,n)}, oversample 0..10, power iterations 0..' + ('1' if ctx.quick() else '3') +
                        ', passes 2..' + ('3' if ctx.quick() else '5') + f', seeds {list(seeds)}: shapes, orthonormality, order, interlacing, Eckart-Young lower bound, ||A||_F upper bound, exactness on low rank. Distinct = (routine, shape, spectrum, R, parameters, seed).')
     return cm.finish(ctx, 'proof', '', ASSUME)
 
